@@ -346,7 +346,7 @@ class TorrentFileStream:
             # file with the wrong size can produce the correct pieces, but that
             # would be unexpected.
             actual_file_size = self._get_file_size_from_fs(filepath)
-            if actual_file_size != file.size:
+            if actual_file_size is not None and actual_file_size != file.size:
                 raise error.VerifyFileSizeError(filepath, actual_file_size, file.size)
 
             try:
